@@ -224,6 +224,7 @@ class Runner:
         log(f"[{pid}] {len(all_units)} units, {sum(len(u.harnesses) for u in all_units)} harnesses, {len(chunks)} crate(s) x {len(plan.macro_profiles)} macro profile(s), {conc} concurrent, -j {jobs_each}")
         outcomes, rejected_all, herr_all = [], {}, {}
         crates = {}
+        unit_by_uid0 = {u.uid: u for u in all_units}
 
         def do(job):
             i, ch, prof = job
@@ -250,6 +251,31 @@ class Runner:
                             o = classify(h, u, r, prof)
                             o.crate = (i, prof)
                             outcomes.append(o)
+        # A rule-valid declaration rejected by the dev-built macro may be rejected only because the
+        # macro's own arithmetic panicked; a release-built macro (what `cargo build --release` gives
+        # users) wraps instead. Re-run such units with the release-style macro so that the semantics
+        # of what users would get is decided too.
+        if "release" not in plan.macro_profiles:
+            redo = [unit_by_uid0[uid] for (uid, prof) in rejected_all if prof == "dev" and unit_by_uid0[uid].meta.get("valid") is not False and unit_by_uid0[uid].harnesses]
+            if redo:
+                redo = redo[:200]
+                log(f"[{pid}] {len(redo)} rule-valid unit(s) rejected by the dev-built macro: re-running them with a release-built macro")
+                cr, tdir, res, rejected, herrors, fatal = self.run_crate(900, [Unit(u.uid, u.decl, [h for h in u.harnesses if h.expect != "control"], u.meta, u.pre) for u in redo], plan, "release", E.NCPU)
+                crates[(900, "release")] = (cr, tdir)
+                if fatal:
+                    self.inconclusive.append(f"release-macro re-run: {fatal[:800]}")
+                else:
+                    for uid, msgs in rejected.items():
+                        rejected_all[(uid, "release")] = msgs
+                    for (uid, hn), msgs in herrors.items():
+                        herr_all[(uid, hn, "release")] = msgs
+                    for u in cr.units:
+                        for h in u.harnesses:
+                            r = res["results"].get(f"{u.uid}::{h.name}")
+                            if r is not None:
+                                o = classify(h, u, r, "release")
+                                o.crate = (900, "release")
+                                outcomes.append(o)
         # solver diversity (thorough tier): re-decide a slice of the harnesses with kissat
         self.kissat = None
         nk = plan.kissat_slice or (24 if self.tier == "thorough" else 0)
